@@ -86,7 +86,7 @@ func runC16(t *testing.T, c *choice.Stream, r *Result, opt RunOpt) {
 		r.Sample = map[string]any{"type": cs.Type, "history": names}
 	}()
 	for i := 0; i < n && r.Outcome != "violation"; i++ {
-		op := []string{"append", "reset", "prepare", "encode", "write", "rawblock", "infer", "decode", "faildecode", "overwrite"}[c.Weighted("op", 6, 2, 1, 5, 3, 2, 1, 3, 2, 2)]
+		op := []string{"append", "reset", "prepare", "encode", "write", "rawblock", "infer", "decode", "faildecode", "overwrite", "blockdecode"}[c.Weighted("op", 6, 2, 1, 5, 3, 2, 1, 3, 2, 2, 2)]
 		fmt.Fprintf(h, "|%s", op)
 		switch op {
 		case "append":
@@ -197,6 +197,35 @@ func runC16(t *testing.T, c *choice.Stream, r *Result, opt RunOpt) {
 				fail("encode-mismatch", "encode-values", "EncodeRawBlock encodes\n %.300s\nthe column logically holds\n %.300s", fmtVals(b.Cols[0].Vals), fmtVals(want))
 				break
 			}
+			observed++
+		case "blockdecode":
+			// the library's own reuse path: a whole block (possibly a 0-row header
+			// block) decoded through proto.Results into the column as it stands
+			k := c.Range("block.rows", 0, 6)
+			names = append(names, fmt.Sprintf("blockdecode(%d)", k))
+			vals := gen.Values(vr, cs.RT, k)
+			if vals == nil {
+				vals = []any{}
+			}
+			var w refproto.W
+			if err := refproto.EncodeBlock(&w, rev, &refproto.Block{Rows: k, Cols: []refproto.Column{{Name: "c", Type: cs.Type, Vals: vals}}}); err != nil {
+				panic(err)
+			}
+			var blk proto.Block
+			if err := blk.DecodeBlock(proto.NewReader(&simio.FaultyReader{Data: w.B}), rev, proto.Results{{Name: "c", Data: col}}); err != nil {
+				fail("decode-failed", "blockdecode-failed", "DecodeBlock of a valid %d-row block into the reused column: %v", k, err)
+				break
+			}
+			got, err := gen.ReadAll(col, cs.RT, col.Rows())
+			if err != nil {
+				panic(err)
+			}
+			if col.Rows() != k || !reflect.DeepEqual(got, vals) {
+				fail("decode-mismatch", "blockdecode-carryover", "decoding a %d-row block into the reused column leaves %d rows:\n got %.300s\nwant %.300s", k, col.Rows(), fmtVals(got), fmtVals(vals))
+				break
+			}
+			model = append([]any(nil), vals...)
+			mutated = true
 			observed++
 		case "decode", "faildecode":
 			k := c.Range("decode.rows", 1, 6)
